@@ -77,14 +77,26 @@ Theorem c22_witnesses :
 Proof. exact (conj trig_witness_evict witness_alias_ok). Qed.
 Print Assumptions c22_witnesses.
 
+(* flushFn = nil (the aggregated buffer that serves SubscribeMetadata; copyToFlush sets
+   lastFlushTime at once and nothing is flushed): with the buffer's own (empty) flushed data as
+   the persisted log, a subscriber behind the last seal never receives the sealed event,
+   however many steps it takes -- outside the trigger of finding 0.  Liveness ("receives
+   every later change") is therefore refuted for hf = false at this level; what the real
+   SubscribeMetadata reads instead (the LOCAL log, other timestamps) is not modelled. *)
+Theorem c22_nil_flush_liveness_refuted :
+  ops_wf witness_nilflush /\
+  run_trig far_iv false (sys0 100 0) witness_nilflush = None /\
+  map e_id (filter (later 0) (run_events far_iv false (sys0 100 0) witness_nilflush)) = [1%N] /\
+  forall n, got (subs (run far_iv false (sys0 100 0) (witness_nilflush ++ repeat SubStep n))) = [].
+Proof. exact nil_flush_stuck. Qed.
+Print Assumptions c22_nil_flush_liveness_refuted.
+
 (* non-vacuity: a schedule with timestamp adjustment, size rotation, an interval seal, a
    lagging flush and a subscriber starting in the middle stays outside the triggers, and the
    subscriber gets records 3..8 *)
 Example c22_example :
-  let ops := [Add 1000 26 1; Add 1000 26 2; Add 990 26 3; Add 1020 26 4; SubStep; SubStep;
-              Add 1030 26 5; Seal; FlushWrite; Add 1040 26 6; SubLoop; FlushMark; SubStep;
-              FlushWrite; FlushMark; Add 1050 26 7; Add 1060 26 8; SubStep; SubStep; SubLoop] in
-  ops_wf ops /\ run_trig 1000000 true (sys0 100 1001) ops = None /\
-  map e_ts (run_events 1000000 true (sys0 100 1001) ops) = [1000; 1001; 1002; 1020; 1030; 1040; 1050; 1060] /\
-  map e_id (got (subs (run 1000000 true (sys0 100 1001) ops))) = [3; 4; 5; 6; 7; 8]%N.
-Proof. cbn zeta. split; [repeat constructor|]. vm_compute. repeat split; reflexivity. Qed.
+  ops_wf example_ops /\ run_trig 1000000 true (sys0 100 1001) example_ops = None /\
+  map e_ts (run_events 1000000 true (sys0 100 1001) example_ops) = [1000; 1001; 1002; 1020; 1030; 1040; 1050; 1060] /\
+  map e_id (got (subs (run 1000000 true (sys0 100 1001) example_ops))) = [3; 4; 5; 6; 7; 8]%N.
+Proof. exact example_ok. Qed.
+Print Assumptions c22_example.
